@@ -121,6 +121,8 @@ def app_validation(ctx, res, lines):
     s = vlib.handle_driver_results(ctx, res)
     ctx.cov["app_outcomes"] = {k[2:]: v for k, v in s.items() if k.startswith("n_")}
     need = ["n_ok", "n_fail:funds", "n_deposit-lock", "n_deposit-refund"]
+    if ctx.tier != "quick":
+        need.append("n_fail:std.VestingLockedCoinsError")
     missing = [k for k in need if not s.get(k)]
     if missing:
         raise vlib.Inconclusive("VACUOUS", "recorded application run never produced %s" % missing)
